@@ -510,4 +510,243 @@ Section Collapse.
         apply (cconv w z Hwz) in Hh. apply Hnyz. apply (ctrans ys w z); congruence || assumption.
       + intros ->. apply (K3 ys z Wys Wz) in Hh; [|congruence]. apply C6_ys in Hh. apply Ct_sub in Hh. contradiction.
   Qed.
+
+  (* ---- running the branch *)
+  Hypothesis Hmc : mm_collapse_stmt.
+  Let l := M' ++ [ys].
+  Let st5 := with_cr st c8 r8.
+
+  Lemma nodup_M' : NoDup M'.
+  Proof.
+    unfold M', tbm. apply nodup_srem, nodup_sadd, nodup_srem, nodup_sinter.
+    apply (mgood_eget V C ys goodC).
+  Qed.
+  Lemma nodup_l : NoDup l.
+  Proof.
+    unfold l. apply nodup_app; [exact nodup_M'|constructor; [intros []|constructor]|].
+    intros z Hz [<-|[]]. apply ys_notM; exact Hz.
+  Qed.
+  Lemma in_l : forall z, In z l <-> In z M' \/ z = ys.
+  Proof. intros z. unfold l. rewrite in_app_iff. cbn. intuition. Qed.
+  Lemma l_dom : forall s, In s l -> dominant st5 s /\ s <> xs.
+  Proof.
+    intros s Hs. apply in_l in Hs. destruct Hs as [Hs| ->].
+    - split; [exact (M'_dom s Hs)|]. intros ->. apply xs_notM; exact Hs.
+    - split; [exact Hdy|congruence].
+  Qed.
+
+  Lemma pres_key : forall d, dominant st d -> ahas d C = true /\ ahas d R = true.
+  Proof. intros d Hd. destruct (Hp d Hd) as [[]|H]; exact H. Qed.
+
+  Lemma ahas_Ct : forall d, ahas d C = true -> ahas d Ct = true.
+  Proof. intros d H. unfold Ct. rewrite !ahas_aset, H, !orb_true_r. reflexivity. Qed.
+  Lemma ahas_Rt : forall d, ahas d R = true -> ahas d Rt = true.
+  Proof. intros d H. unfold Rt. rewrite !ahas_aset, H, !orb_true_r. reflexivity. Qed.
+  Lemma ahas_c8 : forall d, dominant st d -> ahas d c8 = true.
+  Proof.
+    intros d Hd. destruct (pres_key d Hd) as [H1 _].
+    apply fixc_fold_ahas; left. apply fixc_fold_ahas; left.
+    apply (asc_present Ct Rt xs ys Hne d). left. apply ahas_Ct; exact H1.
+  Qed.
+  Lemma ahas_r8 : forall d, dominant st d -> ahas d r8 = true.
+  Proof.
+    intros d Hd. destruct (pres_key d Hd) as [_ H1].
+    apply fixr_fold_ahas; left. apply fixr_fold_ahas; left.
+    apply (asc_present Ct Rt xs ys Hne d). left. apply ahas_Rt; exact H1.
+  Qed.
+
+  Definition final (st6 : truf) : truf :=
+    mkTr (t_sets st6) (aset y xs (aset x xs (t_ids st6))) (t_subs st6)
+         (aset xs (sdiff (srem ys (eget xs (t_conn st6))) M') (t_conn st6))
+         (aset xs (sdiff (srem ys (eget xs (t_rev st6))) M') (t_rev st6)).
+
+  Lemma aget_eget : forall k (m : mset), ahas k m = true -> aget k m = Some (eget k m).
+  Proof. intros k m H. unfold ahas, eget in *. destruct (aget k m); [reflexivity|discriminate]. Qed.
+
+  Lemma existsb_in : forall k (L : list nat), existsb (Nat.eqb k) L = true <-> In k L.
+  Proof. intros k L. apply smem_in. Qed.
+
+  Lemma collapse_run : exists st6,
+    collapse_branch st x y xs ys = Ok (final st6, true) /\
+    sinv st6 /\ t_ids st6 = t_ids st /\ nsets st6 = nsets st /\
+    (forall k, aget k (t_conn st6) = if existsb (Nat.eqb k) l then None else aget k c8) /\
+    (forall k, aget k (t_rev st6) = if existsb (Nat.eqb k) l then None else aget k r8) /\
+    NoDup (map fst (t_conn st6)) /\ NoDup (map fst (t_rev st6)) /\
+    (forall d, dominant st6 d <-> dominant st d /\ ~ In d l) /\
+    (forall s u, mem_of st6 s u <->
+       (s = xs /\ (mem_of st xs u \/ exists z, In z l /\ mem_of st z u)) \/
+       (s <> xs /\ ~ In s l /\ mem_of st s u)) /\
+    (forall t d, dom_to st t d -> dom_to st6 t (if existsb (Nat.eqb d) l then xs else d)).
+  Proof.
+    destruct (Hmc st5 xs l) as [st6 [Hrun [Hs6 [Hids6 [Hn6 [Hc6 [Hr6 [Hkc [Hkr [Hd6 [Hm6 Hdt6]]]]]]]]]]].
+    { pose proof (cinv_sinv E' st Hc) as Hs. destruct Hs. constructor; assumption. }
+    { exact Hdx. }
+    { exact nodup_l. }
+    { exact l_dom. }
+    change (t_conn st5) with c8 in *. change (t_rev st5) with r8 in *.
+    exists st6.
+    assert (Hxl : existsb (Nat.eqb xs) l = false).
+    { destruct (existsb (Nat.eqb xs) l) eqn:Ex; [|reflexivity]. apply existsb_in in Ex.
+      destruct (l_dom xs Ex) as [_ F]. congruence. }
+    split; [|split; [exact Hs6|split; [exact Hids6|split; [exact Hn6|split; [exact Hc6|split; [exact Hr6|
+             split; [apply Hkc; apply good_c8|split; [apply Hkr; apply good_r8|split; [exact Hd6|split; [exact Hm6|exact Hdt6]]]]]]]]]].
+    unfold collapse_branch.
+    destruct (pres_key ys Hdy) as [Hky _]. destruct (pres_key xs Hdx) as [_ Hkx].
+    rewrite (aget_eget ys (t_conn st) Hky), (aget_eget xs (t_rev st) Hkx). cbn [of_opt bind].
+    fold C R cy rx tbm. rewrite !aget_aset_eq. cbn [of_opt bind]. fold Ct Rt.
+    assert (Hm : smem ys (eget xs (t_conn (with_cr st Ct Rt))) = false).
+    { cbn [t_conn with_cr]. apply smem_false. exact win_nf. }
+    rewrite (asc_eq (with_cr st Ct Rt) xs ys Hm). cbn [bind t_conn t_rev with_cr]. fold C6 R6. fold M'.
+    unfold merge_multiple. cbn [t_conn t_rev with_cr]. rewrite sides_eq.
+    change (with_cr (with_cr (with_cr st Ct Rt) C6 R6) c8 r8) with st5. fold l. rewrite Hrun. cbn [bind].
+    rewrite (Hc6 xs), (Hr6 xs), Hxl.
+    rewrite (aget_eget xs c8 (ahas_c8 xs Hdx)), (aget_eget xs r8 (ahas_r8 xs Hdx)). cbn [of_opt bind].
+    set (st7 := with_cr st6 _ _).
+    assert (Hdj : disjoint_ok st7 = true).
+    { unfold disjoint_ok, st7; cbn [t_sets with_cr]. apply disjoint_from_ok; [apply (s_sets_nodup st6 Hs6)|intros ? ? []]. }
+    rewrite Hdj. cbn [dbgt bind].
+    assert (Hx : aget x (t_ids st7) <> None).
+    { unfold st7; cbn [t_ids with_cr]. rewrite Hids6. apply (c_mem_ids E' st Hc xs x Hmx). }
+    destruct (aget x (t_ids st7)) eqn:Ex; [|congruence]. cbn [of_opt bind].
+    assert (Hy : aget y (aset x xs (t_ids st7)) <> None).
+    { rewrite aget_aset. destruct (Nat.eqb y x); [discriminate|]. unfold st7; cbn [t_ids with_cr]. rewrite Hids6.
+      apply (c_mem_ids E' st Hc ys y Hmy). }
+    destruct (aget y (aset x xs (t_ids st7))) eqn:Ey; [|congruence]. cbn [of_opt bind].
+    unfold final, st7. cbn [t_sets t_ids t_subs t_conn t_rev with_cr].
+    assert (E1 : eget xs (t_conn st6) = eget xs c8) by (unfold eget; rewrite (Hc6 xs), Hxl; reflexivity).
+    assert (E2 : eget xs (t_rev st6) = eget xs r8) by (unfold eget; rewrite (Hr6 xs), Hxl; reflexivity).
+    rewrite E1, E2. reflexivity.
+  Qed.
+
+  (* ---- the new class graph is closed again *)
+  Definition rel (a b : nat) : Prop := cn st a b \/ (ina a /\ outb b).
+
+  Lemma ina_back : forall a b, cn st a b -> ina b -> ina a.
+  Proof.
+    intros a b Hab [->|Hb]; [right; exact Hab|].
+    destruct (Nat.eq_dec a xs) as [->|Hax]; [left; reflexivity|right]. apply (ctrans a b xs); assumption.
+  Qed.
+  Lemma outb_fwd : forall b c, c <> ys -> outb b -> cn st b c -> outb c.
+  Proof.
+    intros b c Hcy [->|Hb] Hbc; right; [apply cn_ys_of_xs; assumption|apply (ctrans ys b c); congruence || assumption].
+  Qed.
+  Lemma in_out_absurd : forall a, D' a -> a <> xs -> ina a -> outb a -> False.
+  Proof.
+    intros a [_ [Ma Hay]] Hax [F|H1] [F'|H2]; try congruence. apply Ma, in_M'. auto.
+  Qed.
+
+  Lemma rel_trans : forall a b c, D' c -> rel a b -> rel b c -> a <> c -> rel a c.
+  Proof.
+    intros a b c [_ [_ Hcy]] [Hab|[Ia Ob]] [Hbc|[Ib Oc]] Hac.
+    - left; apply (ctrans a b c); assumption.
+    - right; split; [apply (ina_back a b); assumption|exact Oc].
+    - right; split; [exact Ia|apply (outb_fwd b c); assumption].
+    - right; split; assumption.
+  Qed.
+
+  Lemma rel_antisym : forall a b, D' a -> D' b -> a <> b -> rel a b -> rel b a -> False.
+  Proof.
+    intros a b Da Db Hab [H1|[Ia Ob]] [H2|[Ib Oa]].
+    - apply (canti a b Hab H1 H2).
+    - pose proof (ina_back a b H1 Ib) as Ia.
+      destruct (Nat.eq_dec a xs) as [->|Hax]; [|apply (in_out_absurd a Da Hax Ia Oa)].
+      destruct Ib as [F|Hb]; [congruence|]. apply (canti xs b Hab H1 Hb).
+    - pose proof (ina_back b a H2 Ia) as Ib.
+      destruct (Nat.eq_dec b xs) as [->|Hbx]; [|apply (in_out_absurd b Db Hbx Ib Ob)].
+      destruct Ia as [F|Ha]; [congruence|]. apply (canti xs a); [congruence|exact H2|exact Ha].
+    - destruct (Nat.eq_dec a xs) as [->|Hax]; [|apply (in_out_absurd a Da Hax Ia Oa)].
+      apply (in_out_absurd b Db); [congruence|exact Ib|exact Ob].
+  Qed.
+
+  (* ---- the final state *)
+  Section Final.
+    Variable st6 : truf.
+    Hypothesis Hs6 : sinv st6.
+    Hypothesis Hids6 : t_ids st6 = t_ids st.
+    Hypothesis Hn6 : nsets st6 = nsets st.
+    Hypothesis Hc6 : forall k, aget k (t_conn st6) = if existsb (Nat.eqb k) l then None else aget k c8.
+    Hypothesis Hr6 : forall k, aget k (t_rev st6) = if existsb (Nat.eqb k) l then None else aget k r8.
+    Hypothesis Hkc : NoDup (map fst (t_conn st6)).
+    Hypothesis Hkr : NoDup (map fst (t_rev st6)).
+    Hypothesis Hd6 : forall d, dominant st6 d <-> dominant st d /\ ~ In d l.
+    Hypothesis Hm6 : forall s u, mem_of st6 s u <->
+       (s = xs /\ (mem_of st xs u \/ exists z, In z l /\ mem_of st z u)) \/
+       (s <> xs /\ ~ In s l /\ mem_of st s u).
+    Hypothesis Hdt6 : forall t d, dom_to st t d -> dom_to st6 t (if existsb (Nat.eqb d) l then xs else d).
+    Let F := final st6.
+
+    Lemma domF : forall d, dominant F d <-> D' d.
+    Proof.
+      intros d. change (dominant F d) with (dominant st6 d). rewrite Hd6, in_l. unfold D'. tauto.
+    Qed.
+    Lemma xs_notl : ~ In xs l.
+    Proof. rewrite in_l. intros [H|H]; [apply xs_notM; exact H|congruence]. Qed.
+    Lemma lk : forall k, existsb (Nat.eqb k) l = true <-> In k l.
+    Proof. intros; apply existsb_in. Qed.
+
+    Lemma eget6c : forall a, eget a (t_conn st6) = if existsb (Nat.eqb a) l then [] else eget a c8.
+    Proof. intros a. unfold eget. rewrite Hc6. destruct (existsb (Nat.eqb a) l); reflexivity. Qed.
+    Lemma eget6r : forall a, eget a (t_rev st6) = if existsb (Nat.eqb a) l then [] else eget a r8.
+    Proof. intros a. unfold eget. rewrite Hr6. destruct (existsb (Nat.eqb a) l); reflexivity. Qed.
+
+    Lemma cnF_iff : forall a b, cn F a b <->
+      (a = xs /\ has c8 xs b /\ b <> ys /\ ~ In b M') \/ (a <> xs /\ ~ In a l /\ has c8 a b).
+    Proof.
+      intros a b. unfold cn, F, final; cbn [t_conn]. rewrite has_aset, in_sdiff, in_srem, !eget6c.
+      pose proof xs_notl as Hx. destruct (existsb (Nat.eqb xs) l) eqn:Ex; [apply lk in Ex; contradiction|].
+      destruct (existsb (Nat.eqb a) l) eqn:Ea.
+      - apply lk in Ea. cbn. intuition congruence.
+      - assert (~ In a l) by (intros Hi; apply lk in Hi; congruence). intuition congruence.
+    Qed.
+    Lemma rvF_iff : forall a b, rv F a b <->
+      (a = xs /\ has r8 xs b /\ b <> ys /\ ~ In b M') \/ (a <> xs /\ ~ In a l /\ has r8 a b).
+    Proof.
+      intros a b. unfold rv, F, final; cbn [t_rev]. rewrite has_aset, in_sdiff, in_srem, !eget6r.
+      pose proof xs_notl as Hx. destruct (existsb (Nat.eqb xs) l) eqn:Ex; [apply lk in Ex; contradiction|].
+      destruct (existsb (Nat.eqb a) l) eqn:Ea.
+      - apply lk in Ea. cbn. intuition congruence.
+      - assert (~ In a l) by (intros Hi; apply lk in Hi; congruence). intuition congruence.
+    Qed.
+
+    Lemma key_V : forall (m : mset) a b, mgood V m -> has m a b -> V a.
+    Proof. intros m a b G H. apply (mrange_has V m a b); [apply G|exact H]. Qed.
+
+    Lemma cnF_D' : forall a b, cn F a b -> D' a /\ D' b.
+    Proof.
+      intros a b H. apply cnF_iff in H. destruct H as [[-> [H _]]|[Hax [Hal H]]].
+      - split; [exact D'xs|apply (Cf_range xs b D'xs H)].
+      - assert (Da : D' a).
+        { rewrite in_l in Hal. split; [apply (key_V c8 a b good_c8 H)|]. split; tauto. }
+        split; [exact Da|apply (Cf_range a b Da H)].
+    Qed.
+    Lemma rvF_D' : forall a b, rv F a b -> D' a /\ D' b.
+    Proof.
+      intros a b H. apply rvF_iff in H. destruct H as [[-> [H [H1 H2]]]|[Hax [Hal H]]].
+      - split; [exact D'xs|apply (Rf_range xs b D'xs H); intros _; split; assumption].
+      - assert (Da : D' a).
+        { rewrite in_l in Hal. split; [apply (key_V r8 a b good_r8 H)|]. split; tauto. }
+        split; [exact Da|apply (Rf_range a b Da H); intros ->; congruence].
+    Qed.
+
+    Lemma cnF_rel : forall a b, a <> b -> (cn F a b <-> D' a /\ D' b /\ rel a b).
+    Proof.
+      intros a b Hab. split.
+      - intros H. destruct (cnF_D' a b H) as [Da Db]. split; [exact Da|]. split; [exact Db|].
+        apply cnF_iff in H. apply (Cf_char a b Da Db Hab). destruct H as [[-> [H _]]|[_ [_ H]]]; exact H.
+      - intros [Da [Db H]]. apply (Cf_char a b Da Db Hab) in H. apply cnF_iff.
+        pose proof Db as [_ [Mb Hby]]. pose proof Da as [_ [Ma Hay]].
+        destruct (Nat.eq_dec a xs) as [->|Hax]; [left; auto|right]. split; [exact Hax|]. split; [|exact H].
+        rewrite in_l. tauto.
+    Qed.
+    Lemma rvF_rel : forall a b, a <> b -> (rv F b a <-> D' a /\ D' b /\ rel a b).
+    Proof.
+      intros a b Hab. assert (Hba : b <> a) by congruence. split.
+      - intros H. destruct (rvF_D' b a H) as [Db Da]. split; [exact Da|]. split; [exact Db|].
+        apply rvF_iff in H. apply (Rf_char b a Db Da Hba). destruct H as [[-> [H _]]|[_ [_ H]]]; exact H.
+      - intros [Da [Db H]]. apply (Rf_char b a Db Da Hba) in H. apply rvF_iff.
+        pose proof Db as [_ [Mb Hby]]. pose proof Da as [_ [Ma Hay]].
+        destruct (Nat.eq_dec b xs) as [->|Hbx]; [left; auto|right]. split; [exact Hbx|]. split; [|exact H].
+        rewrite in_l. tauto.
+    Qed.
+  End Final.
 End Collapse.
